@@ -277,7 +277,7 @@ def make_interp(prog, unwind=8):
 
 
 def handle_fn(prog, endpoint_struct):
-    c = [k for k in prog.fns if k.startswith(CRATE + '::') and k.endswith('::handle') and endpoint_struct in prog.fns[k].header]
+    c = [k for k in prog.fns if k.startswith(CRATE + '::') and re.search(r'::handle(#\d+)?$', k) and endpoint_struct in prog.fns[k].header]
     if len(c) != 1:
         raise Inconclusive(f'endpoints harness: handle of {endpoint_struct} not found uniquely: {c}')
     return c[0]
